@@ -20,6 +20,27 @@ CHECKS = {
         "code (transcribed by hand in Model/Router.v), net/url (oracle: URL.Path computed by the harness). Hypothesis cors_ok (CORS handler installed "
         "or CORS off): the nil-CORS-handler corner is C17's.",
    ref="DESIGN.md section 4 (C03)"),
+ "C04": dict(
+   technique="Coq proof by induction over schemas and declaration lists that the composed parser snippets accept exactly the typed texts + differential check over the type x lexeme x cardinality matrix",
+   text="C04_rejects_iff / C04_error_names / C04_no_invention: for every list of declared query (header) parameters of any schema shape "
+        "(primitive, nullable, array, $ref, nested) and every request, the model of new<Op>Params with the composed ParseStrings snippets fails iff "
+        "some parameter is required-and-absent, a scalar supplied more than once, or supplied with a text outside its type's lexical space; the "
+        "error names such a parameter; on success each field is the typed value of the supplied text and absent optionals are unset. Integer "
+        "and boolean lexical spaces are defined independently and proved equal to the transcription of strconv.ParseInt/ParseBool; float and "
+        "date-time spaces are oracle-relative. Tie: 1120-cell declaration matrix (140 quick) x lexeme classes x cardinalities through Parse() of "
+        "the compiled package vs extracted model vs an independent reference parser.",
+   note="Trusted as C03 plus oracles strconv.ParseFloat / time.Parse (tables computed by the harness). Cells whose generated code does not compile "
+        "(nullable array items D30, component schemas of format date-time D31) are excluded here and judged by C01.",
+   ref="DESIGN.md section 4 (C04)"),
+ "C05": dict(
+   technique="Coq proof by induction over the template that the generated path parser and the segment-level matching agree on every offset + differential check over typed template sets",
+   text="C05_segments: for every template (any number of literal/variable segments, any parameter schemas), base path and request whose "
+        "segments the template matches — i.e. every dispatched request, by C03 — the model of the emitted PathParserConstant/Variable sequence "
+        "(PathBuilder loop, base-path prologue, HasPrefix/Index slicing) yields exactly the specified result: the typed value of the segment at "
+        "each variable position, or an error naming the first variable whose segment is empty or ill-typed; never the anonymous wrong-path error. "
+        "Tie: typed template sets x base-path forms x instantiations over typed/empty/foreign/escaped segments through the compiled package.",
+   note="Trusted as C04. The hypothesis 'template matches the segments' is discharged by C03 for dispatched requests.",
+   ref="DESIGN.md section 4 (C05)"),
  "C11": dict(
    technique="Coq proof over the model of NewRouter/authMiddlewareOr (soundness+completeness of the auth loop w.r.t. the operation's effective requirement) + enumeration of all small security configurations against the compiled package",
    text="C11_auth_sound/complete: for every spec the generator accepts, every API configuration and request, the authenticator loop emitted for an "
